@@ -156,7 +156,71 @@ pub fn gen_width_carrying_constant(t: &mut Tape) -> (Program, ProgInfo) {
     (Program { isa, items }, info)
 }
 
+/// v4 directed template: the SAME instruction text in two scopes, where the relative name it mentions is a literal
+/// constant in the first scope and an address-dependent constant in the second (which already has a value in the first
+/// pass, and a different one once the short/long instructions in front of it have settled):
+///     first: / .len = 2 / lit .len / second: / lag far (x n) / .len = $ - second / lit .len / #res K / far:
+/// with the width cascade  lit {x: u4} => 0xa @ x  |  lit {x: u8} => 0xb0 @ x
+pub fn gen_same_text_two_scopes(t: &mut Tape) -> (Program, ProgInfo) {
+    let zeros = [0u32; 4];
+    let (base, _) = gen_lagging_constant(&mut Tape::new(&zeros));
+    let mut isa = IsaGen { size_static: false, asserts: true }.gen(t);
+    for r in base.isa.blocks[0].rules.iter().filter(|r| r.mnemonic == "lag") {
+        isa.blocks[0].rules.push(r.clone());
+    }
+    let lit = crate::gen::expr::lit_of;
+    let one = |ty: PType, head: E, size: usize| Rule {
+        mnemonic: "lit".into(),
+        ops: vec![PatOp { wrap: Wrap::None, op: POp::Param { name: "p0".into(), ty } }],
+        prod: crate::gen::isa::concat_all(vec![head, E::Var("p0".into())]),
+        size,
+    };
+    let cascade = t.chance(2, 3);
+    if cascade {
+        isa.blocks[0].rules.push(one(PType::U(4), crate::gen::isa::sized_lit(0xa, 4), 8));
+        isa.blocks[0].rules.push(one(PType::U(8), crate::gen::isa::sized_lit(0xb0, 8), 16));
+    } else {
+        isa.blocks[0].rules.push(one(PType::U(8), crate::gen::isa::sized_lit(0xc0, 8), 16));
+    }
+    let name = *t.pick(&["len", "n", "cnt"]);
+    let use_ = || Item::Instr(Instr { mnemonic: "lit".into(), ops: vec![InsOp { wrap: Wrap::None, op: IOp::Word(format!(".{}", name)) }] });
+    let mut items: Vec<Item> = Vec::new();
+    let swap = t.chance(1, 4);
+    let first = |items: &mut Vec<Item>, t: &mut Tape| {
+        items.push(Item::Label { dots: 0, name: "first".into() });
+        items.push(Item::Const { dots: 1, name: name.into(), e: lit(t.urange(1, 9) as u64), noemit: false });
+        items.push(use_());
+    };
+    if !swap {
+        first(&mut items, t);
+    }
+    items.push(Item::Label { dots: 0, name: "second".into() });
+    let nlag = t.urange(1, 8);
+    for _ in 0..nlag {
+        items.push(Item::Instr(Instr { mnemonic: "lag".into(), ops: vec![InsOp { wrap: Wrap::None, op: IOp::Word("far".into()) }] }));
+    }
+    let decl = Item::Const { dots: 1, name: name.into(), e: E::Bin(BinOp::Sub, Box::new(E::Var("$".into())), Box::new(E::Var("second".into()))), noemit: false };
+    if t.chance(3, 4) {
+        items.push(decl);
+        items.push(use_());
+    } else {
+        items.push(use_());
+        items.push(decl);
+    }
+    if swap {
+        first(&mut items, t);
+    }
+    items.push(Item::Res(lit(*t.pick(&[0u64, 8, 0x40, 0xc0]))));
+    items.push(Item::Label { dots: 0, name: "far".into() });
+    items.push(Item::Data { width: Some(8), elems: vec![lit(0xbb)] });
+    let info = ProgInfo { n_instr: 2 + nlag, symbol_operands: 2 + nlag, forward_refs: true, ..Default::default() };
+    (Program { isa, items }, info)
+}
+
 pub fn gen_cascade(t: &mut Tape, max_items: usize) -> (Program, ProgInfo) {
+    if crate::engine::gen_version() >= 4 && t.chance(1, 24) {
+        return gen_same_text_two_scopes(t);
+    }
     if crate::engine::gen_version() >= 3 && t.chance(1, 16) {
         return match t.draw(3) {
             0 => gen_lagging_constant(t),
